@@ -176,29 +176,55 @@ impl MarketAgent for MProbe2 {
     }
 }
 
-fn noise_params() -> NoiseAgentParams {
-    NoiseAgentParams { tick_size: 1, p_limit: 0.6, p_market: 0.3, p_cancel: 0.3, trade_vol: 10, price_dist_mu: 1.0, price_dist_sigma: 1.0 }
+// Built-in members come in parameter variants selected by the member's tag: ordinary, silent (all probabilities 0, so the
+// member submits nothing but still has to be updated and to draw what it draws), empty (no traders) and saturated.
+fn noise_params(v: u32) -> NoiseAgentParams {
+    let (pl, pm, pc) = match v % 4 {
+        1 => (0.0, 0.0, 0.0),
+        3 => (1.0, 1.0, 1.0),
+        _ => (0.6, 0.3, 0.3),
+    };
+    NoiseAgentParams { tick_size: 1, p_limit: pl, p_market: pm, p_cancel: pc, trade_vol: 10, price_dist_mu: 1.0, price_dist_sigma: 1.0 }
 }
-fn momentum_params() -> MomentumParams {
-    MomentumParams { tick_size: 1, p_cancel: 0.2, trade_vol: 10, decay: 0.5, demand: 4.0, scale: 0.5, order_ratio: 1.0, price_dist_mu: 1.0, price_dist_sigma: 1.0 }
+fn momentum_params(v: u32) -> MomentumParams {
+    let (demand, ratio, pc) = match v % 4 {
+        1 => (0.0, 0.0, 0.0),
+        3 => (50.0, 1.0, 1.0),
+        _ => (4.0, 1.0, 0.2),
+    };
+    MomentumParams { tick_size: 1, p_cancel: pc, trade_vol: 10, decay: 0.5, demand, scale: 0.5, order_ratio: ratio, price_dist_mu: 1.0, price_dist_sigma: 1.0 }
 }
-pub fn new_random() -> RandomAgents {
-    RandomAgents::new(3, (90, 120), (5, 15), 1, 0.7)
+fn n_traders(v: u32) -> u16 {
+    if v % 4 == 2 {
+        0
+    } else {
+        3
+    }
+}
+fn activity(v: u32) -> f32 {
+    match v % 4 {
+        1 => 0.0,
+        3 => 1.0,
+        _ => 0.7,
+    }
+}
+pub fn new_random_v(t: u32) -> RandomAgents {
+    RandomAgents::new(n_traders(t) as usize, (90, 120), (5, 15), 1, activity(t))
 }
 pub fn new_noise(t: u32) -> NoiseAgent {
-    NoiseAgent::new(10_000 + t * 10, 3, noise_params())
+    NoiseAgent::new(10_000 + t * 10, n_traders(t), noise_params(t))
 }
 pub fn new_momentum(t: u32) -> MomentumAgent {
-    MomentumAgent::new(20_000 + t * 10, 3, momentum_params())
+    MomentumAgent::new(20_000 + t * 10, n_traders(t), momentum_params(t))
 }
-pub fn new_mrandom(a: usize) -> RandomMarketAgents {
-    RandomMarketAgents::new(a, 3, (90, 120), (5, 15), 1, 0.7)
+pub fn new_mrandom_v(a: usize, t: u32) -> RandomMarketAgents {
+    RandomMarketAgents::new(a, n_traders(t) as usize, (90, 120), (5, 15), 1, activity(t))
 }
 pub fn new_mnoise(a: usize, t: u32) -> NoiseMarketAgent {
-    NoiseMarketAgent::new(a, 10_000 + t * 10, 3, noise_params())
+    NoiseMarketAgent::new(a, 10_000 + t * 10, n_traders(t), noise_params(t))
 }
 pub fn new_mmomentum(a: usize, t: u32) -> MomentumMarketAgent {
-    MomentumMarketAgent::new(20_000 + t * 10, 3, a, momentum_params())
+    MomentumMarketAgent::new(20_000 + t * 10, n_traders(t), a, momentum_params(t))
 }
 
 #[derive(Debug, Default)]
